@@ -16,34 +16,30 @@ pub struct EdgeList {
     pub list: Vec<f64>,
 }
 
-/// Outcomes the property allows for `list`: the first offender among the first
-/// LEN+1 values decides (NaN / NotSorted); a list that is too short gives
-/// NotEnoughRanges; a list that is both too short and faulty may report either.
+/// The outcome the property prescribes for `list`: positions 0..=LEN are scanned in order; a
+/// position offends if it does not exist (NotEnoughRanges), holds NaN (NaN) or holds a value
+/// smaller than its predecessor (NotSorted); the error is that of the FIRST offending position.
+/// (Until round 7 of the seeded changes a list that is both too short and faulty was allowed to
+/// report either error; the property speaks of "the error of the first offending position", the
+/// code implements exactly that, and the lenient reading missed the seeded change C12-n.)
 pub fn allowed(list: &[f64], len: usize) -> (Vec<Result<(), RangeErr>>, bool) {
-    let m = list.len().min(len + 1);
-    let mut first: Option<RangeErr> = None;
-    for i in 0..m {
+    let mut out = Ok(());
+    for i in 0..=len {
+        if i >= list.len() {
+            out = Err(RangeErr::NotEnoughRanges);
+            break;
+        }
         if list[i].is_nan() {
-            first = Some(RangeErr::NaN);
+            out = Err(RangeErr::NaN);
             break;
         }
         if i > 0 && list[i] < list[i - 1] {
-            first = Some(RangeErr::NotSorted);
+            out = Err(RangeErr::NotSorted);
             break;
         }
     }
-    let short = list.len() < len + 1;
-    let mut v = Vec::new();
-    match (first, short) {
-        (None, false) => v.push(Ok(())),
-        (None, true) => v.push(Err(RangeErr::NotEnoughRanges)),
-        (Some(e), false) => v.push(Err(e)),
-        (Some(e), true) => {
-            v.push(Err(e));
-            v.push(Err(RangeErr::NotEnoughRanges));
-        }
-    }
-    (v, first.is_some())
+    let faulty = matches!(out, Err(RangeErr::NaN) | Err(RangeErr::NotSorted));
+    (vec![out], faulty)
 }
 
 fn run_ctor<H: Hist>(c: &EdgeList, o: &mut Obs) -> TestResult {
@@ -208,7 +204,7 @@ impl Check for ConstWidth {
 pub const LATTICE9: [f64; 9] = [f64::NEG_INFINITY, -1.0, -0.0, 0.0, 0.5, 1.0, 2.0, f64::INFINITY, f64::NAN];
 
 pub fn run(cx: &Ctx) {
-    cx.set_rule("cases = (implementation, LEN, input list) and (implementation, LEN, start, end). Exhaustive: LEN 1..4, every list of length 0..LEN+3 over the 9-value lattice {-inf,-1,-0.0,0,0.5,1,2,+inf,NaN}; generated: LEN 10 and 100, a valid prefix with one injected fault (NaN, descent, truncation) at a random position, or none, plus extra trailing values. Oracle: scan the first min(len, LEN+1) values — first NaN -> NaN, first descent -> NotSorted, none and too short -> NotEnoughRanges (a list both too short and faulty may report either), else Ok with ranges() bit-identical to the input prefix (-0.0 preserved), all counts 0, range_min/max the ends. with_const_width: finite start < end over 30 decades incl. width << magnitude: first edge bit-equal to start, edges non-decreasing, edge i within 8 ulp(max(|start|,|end|)) of the exact rational start + i(end-start)/LEN. Non-trivial = list with a fault, a repeated edge, an infinity or -0.0 (every const-width case); distinct = hash of the inputs");
+    cx.set_rule("cases = (implementation, LEN, input list) and (implementation, LEN, start, end). Exhaustive: LEN 1..4, every list of length 0..LEN+3 over the 9-value lattice {-inf,-1,-0.0,0,0.5,1,2,+inf,NaN}; generated: LEN 10 and 100, a valid prefix with one injected fault (NaN, descent, truncation) at a random position, or none, plus extra trailing values. Oracle: scan the first min(len, LEN+1) values — positions 0..=LEN in order: missing -> NotEnoughRanges, NaN -> NaN, smaller than its predecessor -> NotSorted, the first offending position decides (also for a list that is both too short and faulty), else Ok with ranges() bit-identical to the input prefix (-0.0 preserved), all counts 0, range_min/max the ends. with_const_width: finite start < end over 30 decades incl. width << magnitude: first edge bit-equal to start, edges non-decreasing, edge i within 8 ulp(max(|start|,|end|)) of the exact rational start + i(end-start)/LEN. Non-trivial = list with a fault, a repeated edge, an infinity or -0.0 (every const-width case); distinct = hash of the inputs");
     cx.extra("implementations", serde_json::json!(IMPLS));
     // exhaustive lists
     for imp in IMPLS {
